@@ -145,6 +145,15 @@ func traceInvariants(ops []crashfs.Op, counts map[string]int) []traceViolation {
 			if op.Flags&os.O_CREATE != 0 && atomicOnly(op.Path) {
 				bad(k, fmt.Sprintf("T2 %s is created/truncated in place instead of being replaced atomically", fileClass(op.Path)), op.Path)
 			}
+			// T9: the tmp sibling of an atomic replace starts empty. A tmp file left behind by a crash between
+			// fsync(tmp) and rename may be longer than the next payload for the same name; without O_TRUNC (or O_EXCL)
+			// the stale tail survives and the renamed file is torn.
+			if op.Flags&os.O_CREATE != 0 && strings.HasSuffix(op.Path, ".tmp") && atomicOnly(strings.TrimSuffix(op.Path, ".tmp")) {
+				counts["T9_tmp_opens_checked"]++
+				if op.Flags&(os.O_TRUNC|os.O_EXCL) == 0 {
+					bad(k, fmt.Sprintf("T9 %s: the tmp file of an atomic replace is opened without O_TRUNC/O_EXCL, a stale longer tmp from an earlier crash would be published torn", fileClass(strings.TrimSuffix(op.Path, ".tmp"))), op.Path)
+				}
+			}
 		case "rename":
 			if op.Path != op.Path2+".tmp" {
 				counts["other_renames"]++
